@@ -336,6 +336,8 @@ def gen_priv(rng, names, nonascii=False, upper_rule=True):
         for _ in range(rng.choice([0, 1, 1, 2, 2, 3])):
             k = rng.choice(QKEYS)
             v = rng.choice(QVALS)
+            if rng.random() < 0.06:
+                k = ""                              # a rule on the empty key can never be satisfied
             if rng.random() < 0.3:
                 k = recase(rng, k)
             if rng.random() < 0.3:
@@ -521,12 +523,21 @@ def gen_claims_for(rng, doc, elevated=None):
         cand = [x for x in ids if x["name"] in assigned]
         if cand and rng.random() < 0.8:
             i = rng.choice(cand)
-        if i["userName"] is not None and rng.random() < 0.85:
-            c["u"] = i["userName"]
-        if i["groupName"] is not None and rng.random() < 0.85:
-            c["g"].insert(rng.randrange(len(c["g"]) + 1), i["groupName"])
-        if i["processName"] is not None and rng.random() < 0.85:
-            c["p"] = i["processName"].encode()
+        # each stated attribute: mostly the identity's own value, sometimes a near miss (other letter
+        # case, one character more), sometimes unrelated
+        def near(v):
+            r = rng.random()
+            if r < 0.82:
+                return v
+            if r < 0.92:
+                return rng.choice([v.upper(), v.capitalize(), v.swapcase(), recase(rng, v)])
+            return rng.choice([v + "x", v[:-1], " " + v])
+        if i["userName"] is not None and rng.random() < 0.9:
+            c["u"] = near(i["userName"])
+        if i["groupName"] is not None and rng.random() < 0.9:
+            c["g"].insert(rng.randrange(len(c["g"]) + 1), near(i["groupName"]))
+        if i["processName"] is not None and rng.random() < 0.9:
+            c["p"] = near(i["processName"]).encode()
         if i["exePath"] is not None and rng.random() < 0.85:
             c["e"] = variant_exe(rng, i["exePath"]).encode()
     if rng.random() < 0.03:
@@ -534,6 +545,69 @@ def gen_claims_for(rng, doc, elevated=None):
     if rng.random() < 0.03:
         c["p"] = c["p"] + b"\xfe"
     return c
+
+
+def gen_targeted(rng, doc):
+    """(claims, url) built along one complete grant chain of the document (assignment -> defined role ->
+    defined privilege, and a defined identity of that assignment): the URL satisfies the privilege
+    exactly, the caller carries every stated attribute of the identity -- then, more often than not,
+    exactly one stated attribute is changed slightly (letter case, one character, another spelling of
+    the same executable path).  None when the document has no complete chain."""
+    s = sections(doc)
+    if s is None:
+        return None
+    ps, rs, ids, ras = s
+    chains = []
+    for ra in ras:
+        for r in rs:
+            if r["name"] != ra["role"]:
+                continue
+            for p in ps:
+                if p["name"] not in r["privileges"]:
+                    continue
+                path = asciiize(p["path"])
+                if path is None or not path.startswith("/"):
+                    continue
+                q = [(asciiize(k), asciiize(v)) for k, v in (p.get("q") or [])]
+                if any(k is None or v is None or k == "" or "&" in k + v or "=" in k for k, v in q):
+                    continue
+                for i in ids:
+                    if i["name"] in ra["identities"]:
+                        chains.append((p, path, q, i))
+    if not chains:
+        return None
+    p, path, q, i = rng.choice(chains)
+    path += rng.choice(["", "", "/", "/x"])
+    if rng.random() < 0.5:
+        path = recase(rng, path)
+    parts = [(recase(rng, k) if rng.random() < 0.5 else k) + "=" + (recase(rng, v) if rng.random() < 0.5 else v) for k, v in q]
+    if rng.random() < 0.3:
+        parts.append(rng.choice(["zz=1", "zz", "comp2=x"]))
+    url = path + ("?" + "&".join(parts) if parts else "")
+    c = {"u": rng.choice(USERS), "g": [rng.choice(GROUPS) for _ in range(rng.choice([0, 1, 2]))],
+         "p": rng.choice(PROCS).encode(), "e": rng.choice(EXES).encode(), "el": rng.random() < 0.5}
+    if i["userName"] is not None:
+        c["u"] = i["userName"]
+    if i["groupName"] is not None:
+        c["g"].insert(rng.randrange(len(c["g"]) + 1), i["groupName"])
+    if i["processName"] is not None:
+        c["p"] = i["processName"].encode()
+    if i["exePath"] is not None:
+        c["e"] = i["exePath"].encode()
+    stated = [f for f in ("userName", "groupName", "processName", "exePath") if i[f] is not None]
+    if stated and rng.random() < 0.6:
+        f = rng.choice(stated)
+        v = i[f]
+        alt = rng.choice([v.upper(), v.swapcase(), v.capitalize(), v + "x", v[:-1], v + " "])
+        if f == "userName":
+            c["u"] = alt
+        elif f == "groupName":
+            c["g"] = [alt if g == v else g for g in c["g"]]
+        elif f == "processName":
+            c["p"] = alt.encode()
+        else:
+            c["e"] = rng.choice([alt, variant_exe(rng, v), variant_exe(rng, v)]).encode()
+    return c, url
 
 
 # ---- metamorphic variants --------------------------------------------------------------------
